@@ -119,16 +119,31 @@ structure Follower where
   /-- LoadRegionsOnce has run in this process -/
   loaded    : Bool := false
   connected : Bool := false
+  /-- region ids whose next `SaveRegion` on this follower fails (once) / whose saves fail until told otherwise -/
+  failOnce   : List Nat := []
+  failAlways : List Nat := []
+  /-- the follower saves regions to its default kv (`use-region-storage = false`): writes can be made to fail -/
+  plainKv   : Bool := false
   deriving Repr
 
-/-- one region of a message: `CheckAndPutRegion; SaveRegion; Record` -/
+/-- one region of a message when the save succeeds: `CheckAndPutRegion; SaveRegion; Record` -/
 def applyOne (f : Follower) (r : Region) : Follower :=
   { f with cache := applyRegion f.cache r, store := saveMeta f.store r.md, hist := record f.hist r false }
+
+/-- one region of a message: `CheckAndPutRegion(region); err = SaveRegion(r); if err == nil { Record(region) }` –
+    the cache is updated whatever happens to the write; a failed write only keeps the region out of the storage
+    and the record out of the history -/
+def applyOneF (f : Follower) (r : Region) : Follower :=
+  if f.failOnce.contains r.md.id then
+    { f with cache := applyRegion f.cache r, failOnce := f.failOnce.erase r.md.id }
+  else if f.failAlways.contains r.md.id then
+    { f with cache := applyRegion f.cache r }
+  else applyOne f r
 
 /-- one received message -/
 def applyMsg (f : Follower) (m : Msg) : Follower :=
   let f1 := if f.hist.index != m.start then { f with hist := resetWithIndex f.hist m.start false } else f
-  (decode m).foldl applyOne f1
+  (decode m).foldl applyOneF f1
 
 /-- `LoadRegionsOnce(CheckAndPutRegion)`: every stored region in id order; what the callback returns
     is deleted from the storage -/
@@ -144,6 +159,6 @@ def loadStored (f : Follower) : Follower :=
 
 /-- a clean process restart of a follower: storage kept, everything volatile dropped -/
 def restartFollower (f : Follower) (cap : Nat) : Follower :=
-  { hist := restart f.hist cap, store := f.store }
+  { hist := restart f.hist cap, store := f.store, plainKv := f.plainKv, failOnce := f.failOnce, failAlways := f.failAlways }
 
 end PdModel.Syncer
